@@ -20,6 +20,13 @@ SCALARS = [
     {"type": "integer", "maximum": -20000001},
 ]
 
+# array-valued parameters (C18 only: the dialect of C10 has scalar parameters): the formatted value is computed from the
+# very list object the cache holds
+ARRAYS = [
+    {"type": "array", "items": {"type": "string", "enum": ["red", "green"]}, "minItems": 2},
+    {"type": "array", "items": {"type": "integer", "minimum": 1, "maximum": 3}, "minItems": 2},
+]
+
 BODIES = [
     {"type": "object", "properties": {"a": {"type": "integer", "minimum": 1}}, "required": ["a"]},
     {"type": "object", "properties": {"n": {"type": "string", "minLength": 1}, "f": {"type": "boolean"}}},
@@ -29,8 +36,10 @@ BODIES = [
 ]
 
 
-def description(rng: random.Random, n_ops=3, allow_body_scalar=True):
+def description(rng: random.Random, n_ops=3, allow_body_scalar=True, arrays=False):
     pool = [copy.deepcopy(s) for s in rng.sample(SCALARS, 4)]
+    if arrays and rng.random() < 0.5:
+        pool[rng.randrange(4)] = copy.deepcopy(rng.choice(ARRAYS))
     comps = {"schemas": {"S%d" % i: copy.deepcopy(s) for i, s in enumerate(pool[:2])}}
     bodies = [copy.deepcopy(b) for b in rng.sample(BODIES, 2)]
     comps["schemas"]["B0"] = copy.deepcopy(bodies[0])
@@ -89,12 +98,12 @@ def description(rng: random.Random, n_ops=3, allow_body_scalar=True):
     return {"info": {"title": "t"}, "paths": paths, "components": comps}
 
 
-def overrides(rng, op):
+def overrides(rng, op, arrays=False):
     """valid_values for generate_all: lists of caller-supplied valid values"""
     ov = {}
     for p in op.parameters:
         if rng.random() < 0.4:
-            ov[p.name] = [rng.choice(["o1", 777, "zz", 12])] * rng.choice([1, 2])
+            ov[p.name] = [rng.choice(["o1", 777, "zz", 12] + ([["l1", "l2", "l3"]] if arrays else []))] * rng.choice([1, 2])
     return ov
 
 
